@@ -7,13 +7,14 @@ from checks import c01, c02
 
 PROPERTY = 'C03'
 RULE = ('deviation-bounded product space over the C02 shape axes plus global isotope labels, and option axes ion_type '
-        '(16 fragment types, n), charge -3..4 (argument or string), isotope 1-3, average mode, adducts (argument or string), '
+        '(16 fragment types, n), charge -3..4 and 10, 12, -11 (argument or string), isotope 1-3, average mode, adducts (argument or string), '
         'use_isotope_on_mods; full products over every Unimod entry and every self-consistent PSI-MOD entry x {mono, avg} '
         'on a one-residue peptide; non-trivial = at least one axis set')
 ASSUMPTIONS = ['agreement = |mass - (chem_mass(comp) + delta)| <= 1e-4 (mono) / 1e-3*max(1,#tabulated mod instances) + 5ppm '
                'of the summed modification mass (average); both paths raising a ValueError subclass is agreement',
                'independent anchor: states with <=1 deviation are also compared with mc/refmass.py',
-               'charge range [-3,4] (proton vs H-e differs by 1.5e-8 per charge, inside the tolerance)']
+               'charge range [-3,4] (proton vs H-e differs by 1.5e-8 per charge, inside the tolerance); charges 10, 12, '
+               '-11, -10 (two-digit carrier counts) in monoisotopic mode only']
 
 T = catalogue
 TEXTS_L1 = c02.MASS_TEXTS_L1 + [t for t in T.NAMED if not c02._c02_named(t)] + T.NO_MASS
@@ -61,9 +62,9 @@ def values_at(axis, level, n):
         spans = [(0, n)] if n == 1 else [(0, 2), (1, n)]
         return [[[a, b, amb, ml]] for (a, b) in spans for amb in (False, True) for ml in mls]
     if axis == 'charge_arg':
-        return [-3, -2, -1, 0, 1, 2, 3, 4] if level <= 2 else [-1, 2, 4]
+        return [-3, -2, -1, 0, 1, 2, 3, 4, 10, 12, -11] if level <= 2 else [-1, 2, 4]   # two-digit carrier counts
     if axis == 'cstr':
-        out = [[2, None], [-1, None], [4, None], [-3, None], [1, None]]
+        out = [[2, None], [-1, None], [4, None], [-3, None], [1, None]] + ([[12, None], [-10, None]] if level <= 2 else [])
         ads = c02.adduct_values(2) if level <= 2 else c02.adduct_values(3)
         zs = [1, 2, 3, -1]
         return out + [[zs[i % 4], a] for i, a in enumerate(ads)]
@@ -200,6 +201,12 @@ def check(case, ctx):
         ninst, tot = _tab_instances(P, ion)
         tol = 1e-4 if mono else (1e-3 * max(1, ninst) + 5e-6 * tot)
         z = kw_mass.get('charge', P.get('charge'))
+        if not mono and z is not None and abs(z) > 4:
+            # outside the quantifier (charge in [-3,4]): in average mode the fast path adds z protons, the composition
+            # z x (average H - e); the 1.2e-4 per charge leaves the stated 1e-3 from |z| = 9 on.  Two-digit charges are
+            # explored in monoisotopic mode only.
+            ctx.outcome = [s, 'avg-high-charge-skipped']
+            return
         extra = {'ion': ion, 'charge': z, 'labile': bool(P.get('labile')), 'isotope_labels': P.get('isotope'),
                  'adducts': kw_mass.get('charge_adducts', P.get('adducts'))}
         m = agree(ctx, p, s, kw_mass, kw_comp, mono, tol, 'mass', extra)
